@@ -102,13 +102,36 @@ inline Units encode(const Units &cps, int width) {
 }
 
 // ---- code point / string generation ----
+// Look-alike mode (set by a harness from a field of its Case; off for older replay files): half of the two-byte code points become
+// U+0100 | c for a syntax or control character c - one UTF-16 / UTF-32 unit whose LOW BYTE is '"', '\\', a control character, a
+// bracket ... They are ordinary string content at every width.
+inline bool &look_alike_cps() {
+    static thread_local bool on = false;
+    return on;
+}
+inline bool &lone_low_surrogates() {
+    static thread_local bool on = false;
+    return on;
+}
 inline uint32_t gen_cp(Entropy &e) {
     switch (e.below(12)) {
         case 0: return e.below(0x20);                                      // control
         case 1: return (uint32_t[]){'"', '\\', '/', 0x7F, 0, '\b', '\f', '\n', '\r', '\t', '&', '<'}[e.below(12)];
-        case 2: return 0x80 + e.below(0x780);                              // 2-byte UTF-8
+        case 2: {
+            const uint32_t c = 0x80 + e.below(0x780);                      // 2-byte UTF-8
+            if (look_alike_cps() && (c & 1U) != 0) {
+                static const uint32_t low[] = {'"', '\\', '/', 0x0A, 0x00, 0x1F, 'u', 'n', '{', '}', '[', ']', ':', ',', '0', 'e', '-', 't', 0x7F, ' '};
+                return 0x0100U | low[(c >> 1) % 20];
+            }
+            return c;
+        }
         case 3: {
             uint32_t c = 0x800 + e.below(0xF800);                          // 3-byte
+            if (c >= 0xD800 && c <= 0xDFFF && lone_low_surrogates()) {
+                // an unpaired low surrogate, always spelled as a \uXXXX escape: legal by the RFC 8259 grammar (C07 only looks at
+                // acceptance, not at the value such a string denotes)
+                return (c & 4U) ? 0xDC00U : (c & 8U) ? 0xDFFFU : 0xDC00U + (c & 0x3FFU);
+            }
             return (c >= 0xD800 && c <= 0xDFFF) ? 0xE000 + (c & 0x7FF) : c;
         }
         case 4: return 0x10000 + e.below(0x100000);                        // astral
@@ -155,7 +178,19 @@ inline std::string gen_numeral(Entropy &e) {
     }
     if (e.chance(10)) { // long runs of nines just below a power of two / ten: rounding carries through the whole significand
         static const char *heads[] = {"1", "3", "1023", "4294967295", "9", "0"};
-        std::string         digits = std::string(heads[e.below(6)]) + std::string(14 + e.below(8), '9');
+        const uint32_t      hsel   = e.below(6);
+        const uint32_t      nines  = 14 + e.below(8);
+        if (look_alike_cps() && (nines & 1U) != 0) {
+            // (same switch as the look-alike code points: off for older replay files) a numeral thousands of characters long whose
+            // written exponent only compensates its own zeros: 0.000...025e+N and 1000...0E-N denote ordinary values
+            static const unsigned zs[] = {998, 9995, 9999, 10000, 12345, 65536};
+            const unsigned        z    = zs[hsel];
+            if ((nines & 2U) != 0) {
+                return s + "0." + std::string(z, '0') + "25e" + ((nines & 4U) ? "+" : "") + std::to_string(z + 1);
+            }
+            return s + "1" + std::string(z, '0') + ".5E-" + std::to_string(z);
+        }
+        std::string         digits = std::string(heads[hsel]) + std::string(nines, '9');
         size_t              point  = (digits[0] == '0') ? 1 : 1 + e.below(uint32_t(digits.size())); // no leading zeros in RFC 8259
         s += digits.substr(0, point) + (point < digits.size() ? "." + digits.substr(point) : "");
         if (e.chance(30)) {
@@ -304,7 +339,7 @@ inline void put_hex4(Units &o, uint32_t v, Entropy &e) {
 inline void spell_string(const Units &s, Entropy &e, Units &o, const SpellOpts &op, bool &used_escape) {
     o.push_back('"');
     for (uint32_t c : s) {
-        bool must = (c < 0x20 || c == '"' || c == '\\');
+        bool must = (c < 0x20 || c == '"' || c == '\\' || (c >= 0xD800 && c <= 0xDFFF));
         if (!must && !(op.escapes && e.chance(15))) {
             o.push_back(c);
             continue;
